@@ -383,6 +383,8 @@ def gen_suffix(rng, pool, docs, nops=10, weights=None):
             line = 'clearrefs %s %s' % (rk, rng.choice(pool.by_kind[RK[rk][0]]))
         elif op == 'setid':
             line = 'setid %s %d %d %d' % ((h,) + rand_id(rng, pool, k, h))
+        elif op == 'reassign':
+            line = 'reassign %s' % rng.choice(docs)
         if line is None:
             continue
         lines += [line, 'snapshot']
